@@ -1,14 +1,19 @@
 #!/usr/bin/env python3
 """
 cli_src_run_compare.py -- run the GENERATED program (kmodel op `cli_run_src`: CliSrc.main over the translated commands of
-commands.rs, tools/rs2lean_cli.py) and the hand-written model (op `cli_run`: Cli.main) on the same worlds and command lines and
-compare exit code, standard output and the final files.
+commands.rs, tools/rs2lean_cli.py, over the translated streaming functions of encrypt.rs / decrypt.rs, tools/rs2lean_stream.py,
+glued by CliSrc.streamLib) and the hand-written model (op `cli_run`: Cli.main) on the same worlds and command lines and compare
+exit code, standard output and the final files.
 
-Covered: everything that does not reach a streaming library call -- `key generate` (to standard output, to a new file, appended to
-an existing file; names that are refused; missing password), `key change-pass`, `key extract-pub` (good / wrong password, malformed
-key, no password), help, version, usage errors, and the early failures of encrypt / decrypt / password (same file, missing input,
-keyring trouble, unknown key, no password ...).  A case in which the generated program reaches the library call (`libcall=1`)
-is only counted: the translation gives those calls no meaning.  Scrypt makes the key cases slow (a few seconds each).
+Covered: ALL commands.  Not streaming -- `key generate` (to standard output, to a new file, appended to an existing file; names
+that are refused; missing password), `key change-pass`, `key extract-pub` (good / wrong password, malformed key, no password),
+help, version, usage errors, and the early failures of encrypt / decrypt / password (same file, missing input, keyring trouble,
+unknown key, no password ...).  Streaming (phase 1 produces ciphertexts, phase 2 consumes the model's) -- encrypt / decrypt round
+trips with a keyring, password encrypt / decrypt, to a file and to standard output (-o absent), from a file and from standard
+input, empty input, more than one chunk, wrong password / wrong key, corrupted / truncated / extended file, wrong file kind,
+an existing output file (overwritten on success, left alone when nothing is written).  `libcall=1` marks a run of the generated
+program that reached a streaming library call; such runs are compared like all others.  Scrypt makes the key and password cases
+slow (a few seconds each).
 
   usage: cli_src_run_compare.py [--kmodel PATH] [--quick]
   exit : 0 = all equal, 1 = a difference (printed)
@@ -97,34 +102,150 @@ def main():
                 ('change-pass wrong', ['key', 'change-pass', ALICE_SK, '--env-pass'], None, {'KESTREL_PASSWORD': 'nope', 'KESTREL_NEW_PASSWORD': 'n3w'}, b''),
                 ('extract-pub', ['key', 'extract-pub', ALICE_SK, '--env-pass'], None, pw, b''),
                 ('extract-pub wrong', ['key', 'extract-pub', ALICE_SK, '--env-pass'], None, {'KESTREL_PASSWORD': 'nope'}, b''),
-                ('reaches library: dec', ['dec', '-t', 'alice', 'in.txt', '-o', 'out', '-k', 'ring', '--env-pass'], None, pw, b''),
-                ('reaches library: pass enc', ['pass', 'enc', 'in.txt', '-o', 'out', '--env-pass'], None, pw, b'')]
+                # decrypting something that is not a kestrel file reaches the library and fails there
+                ('dec of a plain file', ['dec', '-t', 'alice', 'in.txt', '-o', 'out', '-k', 'ring', '--env-pass'], None, pw, b'')]
         for label, argv, f, e, stdin in slow: add(label, argv, f, e, stdin)
-    lines = []
-    for label, f, e, stdin, argv in cases:
-        rest = f'{pairs(f)} {pairs(e)} {hx(stdin)} {hx(ra)} {hx(rb)} {argv_enc(argv)}'
-        lines.append('cli_run ' + rest); lines.append('cli_run_src ' + rest)
-    p = subprocess.run([kmodel], input='\n'.join(lines) + '\n', capture_output=True, text=True)
-    out = p.stdout.split('\n')
-    if len(out) < len(lines):
-        print(f'kmodel produced {len(out)} lines for {len(lines)} requests'); print(p.stderr); return 1
-
     def fields(s):
         return dict(x.split('=', 1) for x in s.split() if '=' in x)
-    bad = lib = 0
-    for i, (label, f, e, stdin, argv) in enumerate(cases):
-        a, b = fields(out[2 * i]), fields(out[2 * i + 1])
-        if b.get('libcall') == '1':
-            lib += 1
-            continue
-        same = all(a.get(k) == b.get(k) for k in ('exit', 'stdout', 'files')) and b.get('outoffuel') == '0'
-        if label in ('help', 'no args', 'version'):      # the model does not carry the help / version text
-            same = a.get('exit') == b.get('exit') and a.get('files') == b.get('files')
-        if not same:
-            bad += 1
-            print(f'DIFFERENCE in "{label}" {argv[1:]}:\n  model : {out[2 * i][:300]}\n  source: {out[2 * i + 1][:300]}')
-    print(f'{len(cases)} runs, {lib} reached a streaming library call (not compared), {len(cases) - lib} compared, {bad} differences')
-    return 1 if bad else 0
+
+    def run(cs):
+        lines = []
+        for label, f, e, stdin, argv in cs:
+            rest = f'{pairs(f)} {pairs(e)} {hx(stdin)} {hx(ra)} {hx(rb)} {argv_enc(argv)}'
+            lines.append('cli_run ' + rest); lines.append('cli_run_src ' + rest)
+        p = subprocess.run([kmodel], input='\n'.join(lines) + '\n', capture_output=True, text=True)
+        out = p.stdout.split('\n')
+        if len(out) < len(lines):
+            print(f'kmodel produced {len(out)} lines for {len(lines)} requests'); print(p.stderr); sys.exit(1)
+        return out
+
+    def file_of(line, name):
+        """the content of file `name` in the files= field of an output line (None if absent)"""
+        fl = fields(line).get('files', '-')
+        if fl == '-': return None
+        for kv in fl.split(','):
+            k, v = kv.split(':')
+            if bytes.fromhex(k).decode() == name: return b'' if v == '-' else bytes.fromhex(v)
+        return None
+
+    def stdout_of(line):
+        v = fields(line).get('stdout', '-')
+        return b'' if v == '-' else bytes.fromhex(v)
+
+    stats = {'bad': 0, 'lib': 0, 'n': 0}
+
+    def compare(cs, out):
+        for i, (label, f, e, stdin, argv) in enumerate(cs):
+            a, b = fields(out[2 * i]), fields(out[2 * i + 1])
+            stats['n'] += 1
+            if b.get('libcall') == '1': stats['lib'] += 1
+            same = all(a.get(k) == b.get(k) for k in ('exit', 'stdout', 'files')) and b.get('outoffuel') == '0'
+            if label in ('help', 'no args', 'version'):      # the model does not carry the help / version text
+                same = a.get('exit') == b.get('exit') and a.get('files') == b.get('files')
+            if not same:
+                stats['bad'] += 1
+                print(f'DIFFERENCE in "{label}" {argv[1:]}:\n  model : {out[2 * i][:300]}\n  source: {out[2 * i + 1][:300]}')
+
+    out = run(cases)
+    compare(cases, out)
+    nstream = 0
+    if not quick:
+        # ---- streaming, phase 1: encrypt (the model's ciphertexts feed phase 2) ----
+        big = bytes((i * 7 + 3) % 251 for i in range(70000))          # two chunks
+        f1 = dict(files); f1['empty'] = ''; f1['big'] = big; f1['old'] = 'previous content'
+        kr = ['-k', 'ring', '--env-pass']
+        enc = [('enc to self -> file', ['enc', '-t', 'alice', '-f', 'alice', 'in.txt', '-o', 'out'] + kr, f1, pw, b''),
+               ('enc to bob -> file', ['enc', '-t', 'bob', '-f', 'alice', 'in.txt', '-o', 'out'] + kr, f1, pw, b''),
+               ('enc -> stdout', ['enc', '-t', 'alice', '-f', 'alice', 'in.txt'] + kr, f1, pw, b''),
+               ('enc stdin -> file', ['enc', '-t', 'alice', '-f', 'alice', '-o', 'out'] + kr, f1, pw, b'from stdin'),
+               ('enc stdin -> stdout, keyring via env', ['enc', '-t', 'alice', '-f', 'alice', '--env-pass'], f1,
+                dict(pw, KESTREL_KEYRING='ring'), b'x'),
+               ('enc empty file', ['enc', '-t', 'alice', '-f', 'alice', 'empty', '-o', 'out'] + kr, f1, pw, b''),
+               ('enc over an existing file', ['enc', '-t', 'alice', '-f', 'alice', 'in.txt', '-o', 'old'] + kr, f1, pw, b''),
+               ('pass enc -> file', ['pass', 'enc', 'in.txt', '-o', 'out', '--env-pass'], f1, pw, b''),
+               ('pass enc -> stdout', ['password', 'encrypt', 'in.txt', '--env-pass'], f1, pw, b''),
+               ('pass enc stdin -> stdout', ['pass', 'enc', '--env-pass'], f1, pw, b'piped'),
+               ('pass enc empty stdin -> file', ['pass', 'enc', '-o', 'out', '--env-pass'], f1, pw, b''),
+               ('pass enc two chunks', ['pass', 'enc', 'big', '-o', 'out', '--env-pass'], f1, pw, b''),
+               ('pass enc over an existing file', ['pass', 'enc', 'in.txt', '-o', 'old', '--env-pass'], f1, pw, b'')]
+        p1 = [(l, f, e, si, ['kestrel'] + a) for (l, a, f, e, si) in enc]
+        o1 = run(p1)
+        compare(p1, o1)
+        idx = {c[0]: i for i, c in enumerate(p1)}
+        kct = file_of(o1[2 * idx['enc to self -> file']], 'out')
+        kct_bob = file_of(o1[2 * idx['enc to bob -> file']], 'out')
+        kct_stdout = stdout_of(o1[2 * idx['enc -> stdout']])
+        kct_empty = file_of(o1[2 * idx['enc empty file']], 'out')
+        pct = file_of(o1[2 * idx['pass enc -> file']], 'out')
+        pct_stdin = stdout_of(o1[2 * idx['pass enc stdin -> stdout']])
+        pct_big = file_of(o1[2 * idx['pass enc two chunks']], 'out')
+        for nm, v in (('kct', kct), ('kct_bob', kct_bob), ('kct_empty', kct_empty), ('pct', pct), ('pct_big', pct_big)):
+            if not v:
+                print(f'phase 1 produced no ciphertext for {nm}'); return 1
+        if not kct_stdout or not pct_stdin:
+            print('phase 1 produced no ciphertext on standard output'); return 1
+        # ---- streaming, phase 2: decrypt ----
+        flip = lambda b, i: b[:i] + bytes([b[i] ^ 1]) + b[i + 1:]
+        f2 = dict(files)
+        f2.update({'k.ct': kct, 'kbob.ct': kct_bob, 'kempty.ct': kct_empty, 'p.ct': pct, 'pbig.ct': pct_big, 'old': 'previous content',
+                   'k.hdr': flip(kct, 40), 'k.body': flip(kct, len(kct) - 20), 'k.tag': flip(kct, len(kct) - 1), 'k.magic': flip(kct, 3),
+                   'k.trunc': kct[:-5], 'k.short': kct[:100], 'k.extra': kct + b'\0', 'k.len': flip(kct, 4 + 128 + 15),
+                   'p.salt': flip(pct, 10), 'p.body': flip(pct, len(pct) - 20), 'p.trunc': pct[:-1], 'p.extra': pct + b'junk',
+                   'p.last': flip(pct, 4 + 32 + 11), 'three': 'egk'})
+        dec = [('dec round trip -> file', ['dec', '-t', 'alice', 'k.ct', '-o', 'out'] + kr, pw, b''),
+               ('dec round trip -> stdout', ['dec', '-t', 'alice', 'k.ct'] + kr, pw, b''),
+               ('dec stdin -> file', ['decrypt', '-t', 'alice', '-o', 'out'] + kr, pw, kct_stdout),
+               ('dec stdin -> stdout', ['dec', '-t', 'alice'] + kr, pw, kct),
+               ('dec empty plaintext', ['dec', '-t', 'alice', 'kempty.ct', '-o', 'out'] + kr, pw, b''),
+               ('dec over an existing file', ['dec', '-t', 'alice', 'k.ct', '-o', 'old'] + kr, pw, b''),
+               ('dec for another recipient', ['dec', '-t', 'alice', 'kbob.ct', '-o', 'out'] + kr, pw, b''),
+               ('dec for another recipient, existing output', ['dec', '-t', 'alice', 'kbob.ct', '-o', 'old'] + kr, pw, b''),
+               ('dec corrupted handshake', ['dec', '-t', 'alice', 'k.hdr', '-o', 'out'] + kr, pw, b''),
+               ('dec corrupted chunk', ['dec', '-t', 'alice', 'k.body', '-o', 'out'] + kr, pw, b''),
+               ('dec corrupted tag -> stdout', ['dec', '-t', 'alice', 'k.tag'] + kr, pw, b''),
+               ('dec corrupted magic', ['dec', '-t', 'alice', 'k.magic', '-o', 'out'] + kr, pw, b''),
+               ('dec corrupted length field', ['dec', '-t', 'alice', 'k.len', '-o', 'out'] + kr, pw, b''),
+               ('dec truncated', ['dec', '-t', 'alice', 'k.trunc', '-o', 'out'] + kr, pw, b''),
+               ('dec header only', ['dec', '-t', 'alice', 'k.short', '-o', 'out'] + kr, pw, b''),
+               ('dec trailing byte', ['dec', '-t', 'alice', 'k.extra', '-o', 'out'] + kr, pw, b''),
+               ('dec of a password file', ['dec', '-t', 'alice', 'p.ct', '-o', 'out'] + kr, pw, b''),
+               ('dec three bytes', ['dec', '-t', 'alice', 'three', '-o', 'out'] + kr, pw, b''),
+               ('dec empty stdin', ['dec', '-t', 'alice', '-o', 'out'] + kr, pw, b''),
+               ('pass dec round trip -> file', ['pass', 'dec', 'p.ct', '-o', 'out', '--env-pass'], pw, b''),
+               ('pass dec round trip -> stdout', ['password', 'decrypt', 'p.ct', '--env-pass'], pw, b''),
+               ('pass dec stdin -> stdout', ['pass', 'dec', '--env-pass'], pw, pct_stdin),
+               ('pass dec stdin -> file', ['pass', 'dec', '-o', 'out', '--env-pass'], pw, pct),
+               ('pass dec two chunks', ['pass', 'dec', 'pbig.ct', '-o', 'out', '--env-pass'], pw, b''),
+               ('pass dec over an existing file', ['pass', 'dec', 'p.ct', '-o', 'old', '--env-pass'], pw, b''),
+               ('pass dec wrong password', ['pass', 'dec', 'p.ct', '-o', 'out', '--env-pass'], {'KESTREL_PASSWORD': 'wrong'}, b''),
+               ('pass dec wrong password, existing output', ['pass', 'dec', 'p.ct', '-o', 'old', '--env-pass'], {'KESTREL_PASSWORD': 'wrong'}, b''),
+               ('pass dec wrong password -> stdout', ['pass', 'dec', 'p.ct', '--env-pass'], {'KESTREL_PASSWORD': 'wrong'}, b''),
+               ('pass dec corrupted salt', ['pass', 'dec', 'p.salt', '-o', 'out', '--env-pass'], pw, b''),
+               ('pass dec corrupted chunk', ['pass', 'dec', 'p.body', '-o', 'out', '--env-pass'], pw, b''),
+               ('pass dec last flag cleared', ['pass', 'dec', 'p.last', '-o', 'out', '--env-pass'], pw, b''),
+               ('pass dec truncated', ['pass', 'dec', 'p.trunc', '-o', 'out', '--env-pass'], pw, b''),
+               ('pass dec trailing data', ['pass', 'dec', 'p.extra', '-o', 'out', '--env-pass'], pw, b''),
+               ('pass dec of a key file', ['pass', 'dec', 'k.ct', '-o', 'out', '--env-pass'], pw, b''),
+               ('pass dec of a plain file', ['pass', 'dec', 'in.txt', '-o', 'out', '--env-pass'], pw, b''),
+               ('pass dec empty stdin -> stdout', ['pass', 'dec', '--env-pass'], pw, b'')]
+        p2 = [(l, f2, e, si, ['kestrel'] + a) for (l, a, e, si) in dec]
+        o2 = run(p2)
+        compare(p2, o2)
+        nstream = len(p1) + len(p2)
+        # sanity of the test itself: the round trips did decrypt (otherwise equal failures would hide a broken setup)
+        i2 = {c[0]: i for i, c in enumerate(p2)}
+        checks = [(file_of(o2[2 * i2['dec round trip -> file'] + 1], 'out'), b'hello'), (stdout_of(o2[2 * i2['dec stdin -> stdout'] + 1]), b'hello'),
+                  (stdout_of(o2[2 * i2['pass dec stdin -> stdout'] + 1]), b'piped'), (file_of(o2[2 * i2['pass dec two chunks'] + 1], 'out'), big),
+                  (file_of(o2[2 * i2['dec stdin -> file'] + 1], 'out'), b'hello'), (file_of(o2[2 * i2['dec empty plaintext'] + 1], 'out'), b''),
+                  (file_of(o2[2 * i2['pass dec wrong password, existing output'] + 1], 'old'), b'previous content'),
+                  (file_of(o2[2 * i2['pass dec wrong password'] + 1], 'out'), None)]
+        for n, (got, want) in enumerate(checks):
+            if got != want:
+                stats['bad'] += 1
+                print(f'SANITY check {n} failed: the generated program produced {got!r:.80}, expected {want!r:.80}')
+    print(f"{stats['n']} runs ({nstream} streaming cases), all compared; {stats['lib']} reached a streaming library call; "
+          f"{stats['bad']} differences")
+    return 1 if stats['bad'] else 0
 
 
 if __name__ == '__main__':
